@@ -3,6 +3,7 @@ package props
 import (
 	"encoding/json"
 	"fmt"
+	"math"
 	"os"
 	"path/filepath"
 	"strings"
@@ -499,13 +500,22 @@ func TestC15_Transient(t *testing.T) {
 // is computed, not slept through, for dozens of steps.
 func TestC15_LongBudget(t *testing.T) {
 	rec := stat.For("C15")
-	rec.Rule("long budgets: a main file that stays malformed, MaxAttempts in [20,200], base delay from 1 ns to 1000 h, cap in {0, 1us, 50us, 200us}, factor in {1, 1.5, 2, 3, 10, 1e6}. Oracle: exactly MaxAttempts attempts, a non-empty fallback and no error; every wait within [0, cap] and never below the one before it.")
+	rec.Rule("long budgets: a main file that stays malformed, MaxAttempts in [20,200], base delay from 1 ns to 1000 h, cap in {0, 1us, 50us, 200us}, factor in {1, 1.5, 2, 3, 10, 1e6}; a quarter of the cases with base 0 .. 1 h and a factor below 1, zero, negative, NaN, infinite or overflowing (0.5, 0.9, 0.999, 0, -2, NaN, +-Inf, 1e200, 1e308, 5e-324). Oracle: exactly MaxAttempts attempts, a non-empty fallback and no error; every wait within [0, cap] and never below the one before it.")
 	rapid.Check(t, func(t *rapid.T) {
 		cfg := recovery.RetryConfig{
 			MaxAttempts:   rapid.OneOf(rapid.SampledFrom([]int{37, 38, 39, 40, 41, 63, 64, 65, 66, 100, 200}), rapid.IntRange(20, 120)).Draw(t, "attempts"),
 			BaseDelay:     rapid.SampledFrom([]time.Duration{1, time.Microsecond, 10 * time.Millisecond, 100 * time.Millisecond, time.Second, time.Hour, 1000 * time.Hour}).Draw(t, "base"),
 			MaxDelay:      rapid.SampledFrom([]time.Duration{0, time.Microsecond, 50 * time.Microsecond, 200 * time.Microsecond}).Draw(t, "cap"),
 			BackoffFactor: rapid.SampledFrom([]float64{1, 1.5, 2, 2, 3, 10, 1e6}).Draw(t, "factor"),
+		}
+		odd := false
+		if rapid.IntRange(0, 3).Draw(t, "odd-config") == 0 {
+			// any configuration: no base delay at all, a factor that shrinks the waits, is zero, negative,
+			// not a number, or overflows within a few steps - the waits are still a non-decreasing
+			// sequence inside [0, cap]
+			odd = true
+			cfg.BaseDelay = rapid.SampledFrom([]time.Duration{0, 0, 1, 3 * time.Microsecond, 100 * time.Microsecond, time.Hour}).Draw(t, "odd-base")
+			cfg.BackoffFactor = rapid.SampledFrom([]float64{0.5, 0.9, 0.999, 0, -2, math.NaN(), math.Inf(1), math.Inf(-1), 1e200, 1e308, 5e-324}).Draw(t, "odd-factor")
 		}
 		dir := mkdirWork("c15l-")
 		defer os.RemoveAll(dir)
@@ -537,6 +547,6 @@ func TestC15_LongBudget(t *testing.T) {
 			}
 			prev = d
 		}
-		rec.Case(true, map[string]any{"long_budget": true, "attempts": attempts, "base": cfg.BaseDelay.String(), "cap": cfg.MaxDelay.String(), "factor": cfg.BackoffFactor, "waits": len(waits)}, "long-budget")
+		rec.Case(true, map[string]any{"long_budget": true, "attempts": attempts, "base": cfg.BaseDelay.String(), "cap": cfg.MaxDelay.String(), "factor": cfg.BackoffFactor, "waits": len(waits)}, "long-budget", map[bool]string{true: "odd-retry-config", false: "ordinary-retry-config"}[odd])
 	})
 }
